@@ -27,7 +27,8 @@ RC5Params == [RC5_8_12_4 |-> <<8, 12, 4>>, RC5_16_16_8 |-> <<16, 16, 8>>, RC5_32
               RC5_32_12_1 |-> <<32, 12, 1>>, RC5_32_12_255 |-> <<32, 12, 255>>, RC5_32_12_7 |-> <<32, 12, 7>>,
               RC5_64_12_13 |-> <<64, 12, 13>>, RC5_128_4_5 |-> <<128, 4, 5>>, RC5_8_1_3 |-> <<8, 1, 3>>,
               RC5_16_2_1 |-> <<16, 2, 1>>,
-              RC5_8_255_255 |-> <<8, 255, 255>>, RC5_128_255_16 |-> <<128, 255, 16>>, RC5_64_0_8 |-> <<64, 0, 8>>, RC5_16_1_0 |-> <<16, 1, 0>>, RC5_128_12_255 |-> <<128, 12, 255>>, RC5_64_20_9 |-> <<64, 20, 9>>, RC5_8_0_0 |-> <<8, 0, 0>>, RC5_16_16_3 |-> <<16, 16, 3>>]
+              RC5_8_255_255 |-> <<8, 255, 255>>, RC5_128_255_16 |-> <<128, 255, 16>>, RC5_64_0_8 |-> <<64, 0, 8>>, RC5_16_1_0 |-> <<16, 1, 0>>, RC5_128_12_255 |-> <<128, 12, 255>>, RC5_64_20_9 |-> <<64, 20, 9>>, RC5_8_0_0 |-> <<8, 0, 0>>, RC5_16_16_3 |-> <<16, 16, 3>>,
+              RC5_32_100_16 |-> <<32, 100, 16>>, RC5_32_12_104 |-> <<32, 12, 104>>, RC5_64_205_32 |-> <<64, 205, 32>>, RC5_16_110_200 |-> <<16, 110, 200>>, RC5_8_127_10 |-> <<8, 127, 10>>, RC5_32_128_16 |-> <<32, 128, 16>>, RC5_64_126_99 |-> <<64, 126, 99>>, RC5_16_129_101 |-> <<16, 129, 101>>, RC5_128_209_109 |-> <<128, 209, 109>>, RC5_32_254_8 |-> <<32, 254, 8>>]
 RC5T == DOMAIN RC5Params
 OtherT == {"Aria128", "Aria192", "Aria256", "Camellia128", "Camellia192", "Camellia256", "Sm4", "BeltBlock",
            "Des", "Blowfish", "BlowfishLE", "Cast5", "Cast6", "Gift128", "Idea", "Rc2", "Serpent", "Twofish", "Xtea"}
